@@ -42,6 +42,14 @@ Theorem C16_ids_stable_without_cycle_hyp_refuted :
     i < next_id s /\ lookup N.eqb i (entries (run_history s h)) <> lookup N.eqb i (entries s).
 Proof. exact ids_stable_without_cycle_hyp_refuted. Qed.
 
+(* clause 1 without ANY hypothesis, over whole histories of mixed calls (failed
+   ones included): the rendering-relevant header of every existing entry --
+   its type name and its structural key -- never changes.  Only child slots can
+   change, and (C16_ids_stable) only through break_cycles snips on older entries *)
+Theorem C16_name_key_stable : forall h s i, i < next_id s ->
+  option_map hdr (lookup N.eqb i (entries (run_history s h))) = option_map hdr (lookup N.eqb i (entries s)).
+Proof. exact name_key_stable. Qed.
+
 (* after any history of successful calls whose conversions only mention ids they
    obtained (history_ok): every child id of every entry has an entry, and every
    id below next_id has one (so finalize's unwrap, lib.rs:687/782, cannot fail
@@ -121,10 +129,72 @@ Theorem C16_names_unique_inner_title_refuted :
   exists d, ~ NoDup (def_names (run_history empty [AddRefs [d] [] None])).
 Proof. exact names_unique_inner_title_refuted. Qed.
 
-(* clause 4, PARTIAL.  Full statement (not proved):
+(* clause 4, order of calls.  Two accepted calls c1, c2 (add_type_with_name or a
+   batch, with cycles) issued from a consistent state s commute up to an
+   EXPLICIT renaming of ids: with b = next_id s, n1 / n2 the numbers of ids c1 /
+   c2 allocate from s,
+       swap_ren b n1 n2 i = i            (i < b)
+                          = i + n2       (b <= i < b + n1: the ids of c1)
+                          = i - n1       (b + n1 <= i:     the ids of c2)
+   maps the entry of every id after [c1; c2] to the entry of the renamed id after
+   [c2; c1]: same type name, same structural key, children renamed.  Both runs
+   allocate the same number of ids.  (A call issued second addresses its
+   break_cycles parents at their shifted ids: shift_call.)
+   Independence is stated operationally (call_cond0, evaluated along the call's
+   own run from s): every type name, every structure and every ref key c1 looks
+   up resolves in `run c2 s` to the same (shifted) answer as in s, and vice
+   versa -- i.e. no shared type names, no shared refs, and neither call asks
+   type_to_id for a structure the other one REGISTERED (structures that existed
+   in s before both, e.g. String, are shared freely).  Scripts are closed over
+   ids below b, their own results and ref keys (cref_cond0).
+   NOT covered (kept partial below): two calls that both newly register the same
+   unnamed structure (then the second run reuses the first one's id and the
+   renaming is no block swap), and the merged form [b1 ++ b2] as ONE batch. *)
+Theorem C16_split_permutation : forall s c1 c2 Y1 Y2 n1 n2 A B,
+  Bnd s -> Dom s ->
+  call_ok s c1 -> call_ok s c2 -> boxes_of_call_new s c1 -> boxes_of_call_new s c2 ->
+  Y1 = fst (run_call s c1) -> Y2 = fst (run_call s c2) ->
+  n1 = next_id Y1 - next_id s -> n2 = next_id Y2 - next_id s ->
+  call_cond0 (next_id s) n2 s Y2 c1 -> call_cond0 (next_id s) n1 s Y1 c2 ->
+  A = fst (run_call Y1 (shift_call (next_id s) n1 c2)) ->
+  B = fst (run_call Y2 (shift_call (next_id s) n2 c1)) ->
+  next_id A = next_id B /\ next_id A = next_id s + n1 + n2 /\
+  forall i, 1 <= i < next_id A ->
+    lookup N.eqb (swap_ren (next_id s) n1 n2 i) (entries B)
+    = option_map (ren (swap_ren (next_id s) n1 n2)) (lookup N.eqb i (entries A)).
+Proof. exact calls_commute. Qed.
+
+(* the renaming is a bijection of [1, b+n1+n2): its inverse is the swap with n1, n2 exchanged *)
+Theorem C16_split_renaming_bijective : forall b n1 n2 i, 1 <= b -> 1 <= i < b + n1 + n2 ->
+  1 <= swap_ren b n1 n2 i < b + n1 + n2 /\ swap_ren b n2 n1 (swap_ren b n1 n2 i) = i.
+Proof.
+  intros b n1 n2 i Hb Hi. split; [apply swap_ren_range; assumption|apply swap_ren_inv; apply Hi].
+Qed.
+
+(* a renamed entry has the same type name and structural key *)
+Theorem C16_renaming_keeps_name_and_key : forall f e, hdr (ren f e) = hdr e.
+Proof. exact hdr_ren. Qed.
+
+(* the state every history of successful calls reaches satisfies Bnd /\ Dom *)
+Theorem C16_reachable_states_consistent : forall h, history_ok empty h ->
+  Bnd (run_history empty h) /\ Dom (run_history empty h).
+Proof. intros h H. destruct Bnd_empty as [HB HD]. exact (run_history_Bnd h empty HB HD H). Qed.
+
+(* non-vacuity: s has String; c1 = definition A {a: A, s: String} with its self
+   reference boxed; c2 = definition B {v: Vec<String>} *)
+Example C16_split_permutation_hypotheses_satisfiable :
+  Bnd cw_s /\ Dom cw_s /\ call_ok cw_s cw_c1 /\ call_ok cw_s cw_c2
+  /\ boxes_of_call_new cw_s cw_c1 /\ boxes_of_call_new cw_s cw_c2
+  /\ call_cond0 (next_id cw_s) (next_id (fst (run_call cw_s cw_c2)) - next_id cw_s) cw_s (fst (run_call cw_s cw_c2)) cw_c1
+  /\ call_cond0 (next_id cw_s) (next_id (fst (run_call cw_s cw_c1)) - next_id cw_s) cw_s (fst (run_call cw_s cw_c1)) cw_c2.
+Proof. exact cw_hyps. Qed.
+
+(* clause 4, the rest, PARTIAL.  Full statement (not proved beyond
+   C16_split_permutation):
      independent b1 b2 ->
        definitions (run [b1; b2]) == definitions (run [b2; b1]) == definitions (run [b1 ++ b2])
-       up to renaming of ids.
+       up to renaming of ids, ALSO when b1 and b2 newly register the same unnamed
+       structure and for the merged batch b1 ++ b2.
    Proved: two fresh histories that mention the same type names -- any orders,
    splits or merges of one set of additions -- register the same set of type
    names, both outputs are duplicate free and every definition name of one is
